@@ -169,7 +169,20 @@ def rights_map():
     regs = [Reg("C%d" % i, 1, p, "u8", init=("int", 0xA0 + i)) for i, p in enumerate(pat)]
     regs.append(Reg("T", 2, "RW", "u16", off=14, init=("int", 0x55AA)))
     regs.append(Reg("W", 4, "RW", "u32", off=4))         # overlaps C4..C7, declared later: rights RW win
+    regs.append(Reg("N", 2, "NA", "u16", off=0))         # overlaps C0 (RO), C1 (RW), declared later: NA wins
+    regs.append(Reg("N2", 1, "NA", "u8", off=15))        # the upper byte of T (RW) becomes NA
     return Map("rights", [Frag("R", 0, "LE", regs)], tags=("raw",))
+
+
+def rights3_map():
+    """A later fragment of the same memory reserves (NA) cells an earlier fragment declared readable / writable."""
+    a = Frag("A", 0, "LE", [Reg("A0", 4, "RW", "u32", init=("int", 0x11223344)),
+                            Reg("A1", 2, "RO", "u16", init=("int", 0x5566)),
+                            Reg("A2", 2, "WO", "u16")])
+    b = Frag("B", 2, "LE", [Reg("B0", 2, "NA", "u16"),                 # cells 2..3 of A0
+                            Reg("B1", 1, "NA", "u8", off=3),           # cell 5: upper byte of A1
+                            Reg("B2", 1, "RW", "u8", off=5)])          # cell 7: upper byte of A2 (WO -> RW)
+    return Map("rights3", [a, b], tags=("raw",))
 
 
 def rights2_map():
@@ -218,6 +231,7 @@ def family():
     maps.append(layout_map())
     maps.append(rights_map())
     maps.append(rights2_map())
+    maps.append(rights3_map())
     maps.append(init_map("LE"))
     maps.append(init_map("BE"))
     for bits in (16, 32, 64):
